@@ -373,6 +373,119 @@ func runTarjan(c *Ctx) {
 	})
 	c.R.Add("TARJAN", "worker|root-test", wn, p.Pos(w.Pos()), rootOK, "a vertex is a component root exactly when its index equals its low-link", fmt.Sprintf("ok=%v", rootOK))
 	c.R.Add("TARJAN", "worker|pop-until-self", wn, p.Pos(w.Pos()), popOK && recorded, "a root pops the stack until it pops itself and records the popped vertices as one component", fmt.Sprintf("pop-until-v=%v recorded=%v", popOK, recorded))
+	// the stack helpers the worker relies on do what their use assumes: the membership test answers true exactly under
+	// an equality between a stack element and the vertex asked about; the pop takes the last element and shortens the
+	// stack by one, answering nil only for an empty stack. (Inlined forms are judged by T2b/T3 themselves.)
+	seenH := map[*ssa.Function]bool{}
+	for _, ci := range p.RegionCalls(w) {
+		h := ci.Common().StaticCallee()
+		if h == nil || !p.InTarget(h) || len(h.Blocks) == 0 || seenH[h] || h == w || len(ci.Common().Args) == 0 || p.Bind(core.Strip(ci.Common().Args[0])) != ssa.Value(acctP) {
+			continue
+		}
+		seenH[h] = true
+		res := h.Signature.Results()
+		if res.Len() != 1 {
+			continue
+		}
+		isBool := false
+		if b, ok := res.At(0).Type().Underlying().(*types.Basic); ok && b.Kind() == types.Bool {
+			isBool = true
+		}
+		switch {
+		case isBool && len(h.Params) == 2:
+			nT, nF, bad, constOnly := 0, 0, "", true
+			for _, r := range core.Returns(h) {
+				k, isK := core.ConstBool(r.Results[0])
+				if !isK {
+					constOnly = false
+					continue
+				}
+				eq := false
+				for _, l := range core.Lits(core.Guards(r.Block())) {
+					if l.Kind == "cmp" && l.Op == token.EQL && l.Pol && (core.Strip(l.X) == ssa.Value(h.Params[1]) || core.Strip(l.Y) == ssa.Value(h.Params[1])) {
+						eq = true
+					}
+				}
+				if k {
+					nT++
+					if !eq {
+						bad = "answers true without an element being equal to the vertex"
+					}
+				} else {
+					nF++
+					if eq {
+						bad = "answers false although an element equals the vertex"
+					}
+				}
+			}
+			if constOnly && nT+nF > 0 {
+				c.R.Func(core.FuncName(h))
+				c.R.Add("TARJAN", "stack|membership-is-equality|"+h.Name(), core.FuncName(h), p.Pos(h.Pos()), bad == "" && nT > 0 && nF > 0,
+					"the on-stack test answers true exactly when a stack element equals the vertex", ternary(bad == "" && nT > 0 && nF > 0, "true under ==, false otherwise", ternary(bad != "", bad, "one answer is never given")))
+			}
+		case !isBool && len(h.Params) == 1:
+			lenMinus1 := func(v ssa.Value) bool {
+				b, ok := core.Strip(v).(*ssa.BinOp)
+				if !ok || b.Op != token.SUB {
+					return false
+				}
+				k, isK := core.ConstInt(b.Y)
+				cl, isLen := core.Strip(b.X).(*ssa.Call)
+				return isK && k == 1 && isLen && core.CalleeName(cl.Common()) == "builtin.len"
+			}
+			shrinks, top, bad := false, false, ""
+			core.Instrs(h, func(in ssa.Instruction) {
+				if st, ok := in.(*ssa.Store); ok {
+					if sl, ok := st.Val.(*ssa.Slice); ok && sl.Low == nil && sl.High != nil {
+						if lenMinus1(sl.High) {
+							shrinks = true
+						} else {
+							bad = "the stack is cut at " + core.Path(sl.High) + ", not at its length minus one"
+						}
+					}
+				}
+			})
+			for _, r := range core.Returns(h) {
+				emptyG := false
+				for _, l := range core.Lits(core.Guards(r.Block())) {
+					if l.Kind == "cmp" && l.Op == token.EQL && l.Pol {
+						for _, pr := range [][2]ssa.Value{{l.X, l.Y}, {l.Y, l.X}} {
+							if cl, ok := core.Strip(pr[0]).(*ssa.Call); ok && core.CalleeName(cl.Common()) == "builtin.len" {
+								if k, ok := core.ConstInt(pr[1]); ok && k == 0 {
+									emptyG = true
+								}
+							}
+						}
+					}
+				}
+				if core.IsNilConst(r.Results[0]) {
+					if !emptyG {
+						bad = "answers nil for a stack that is not known to be empty"
+					}
+					continue
+				}
+				if emptyG {
+					bad = "takes an element from a stack known to be empty"
+				}
+				for _, sv := range core.Sources(r.Results[0]) {
+					if ld, ok := core.Strip(sv).(*ssa.UnOp); ok {
+						if ia, ok := ld.X.(*ssa.IndexAddr); ok {
+							if lenMinus1(ia.Index) {
+								top = true
+							} else {
+								bad = "takes the element at " + core.Path(ia.Index) + ", not the last one"
+							}
+						}
+					}
+				}
+			}
+			if shrinks || top {
+				c.R.Func(core.FuncName(h))
+				c.R.Add("TARJAN", "stack|pop-takes-the-top|"+h.Name(), core.FuncName(h), p.Pos(h.Pos()), bad == "" && shrinks && top,
+					"the pop answers the last element and shortens the stack by exactly one (nil only for an empty stack)", ternary(bad == "" && shrinks && top, "last element, length minus one", ternary(bad != "", bad, fmt.Sprintf("shrinks=%v takes-top=%v", shrinks, top))))
+			}
+		}
+	}
 	// T4: returns the low-link
 	retOK := true
 	for _, r := range core.Returns(w) {
